@@ -413,8 +413,11 @@ nni_get_port_by_name(const char *name, uint32_t *portp)
 	long            port;
 	char           *end = NULL;
 
+	// A numeric port is all digits: strtol would also take leading
+	// blanks and a sign.
 	port = strtol(name, &end, 10);
-	if ((*end == '\0') && (port >= 0) && (port <= 0xffff)) {
+	if ((name[0] >= '0') && (name[0] <= '9') && (*end == '\0') &&
+	    (port >= 0) && (port <= 0xffff)) {
 		*portp = (uint16_t) port;
 		return (0);
 	}
